@@ -36,3 +36,267 @@ Definition v1_posted_price (top endp dur t : Z) : option Z :=
       end
   | _, _ => None
   end.
+
+(* ------------------------------------------------------------------------------------------ *)
+(* Bid path and close of the generation-1 Dutch auction, statement by statement:
+     keeper/dutch.go       StartDutchAuction (47-162), PlaceDutchAuctionBid (164-342), CloseDutchAuction (365-463),
+                           RestartDutchAuctions (465-660; the ESM branch is not modelled)
+     keeper/dutch_lend.go  PlaceLendDutchAuctionBid (133-330), CloseDutchLendAuction (355-420: no bank
+                           movement of its own), RestartDutchLendAuctions (422-480)
+     x/collector/keeper/collector.go:14 GetAmountFromCollector, :445 SetNetFeeCollectedData
+     x/lend/keeper/funds.go:9 UpdateReserveBalances (dec)
+   The ledger, [send], the outcome helpers and the account identifiers are those of Model/DutchV2. *)
+From Comdex Require Import Model.DutchV2.
+
+(* GetAmountOfOtherToken with both results: (t1dAmount as a Dec, token amount) *)
+Definition conv2_c (d1 r1 amt1 d2 r2 : Z) : option (Z * Z) :=
+  if (d1 =? 0) || (r2 =? 0) then None
+  else
+    let num := dmul (dec_of_int amt1) r1 in
+    let t1 := dquo num (dec_of_int d1) in
+    let na := dquo t1 r2 in
+    let ta := dmul na (dec_of_int d2) in
+    if fits_dec num && fits_dec t1 && fits_dec na && fits_dec ta && fits_int (dtrunc_int ta)
+    then Some (t1, dtrunc_int ta) else None.
+
+Record v1cfg := mkV1Cfg {
+  v_buffer : Z;     (* AuctionParams.Buffer (Dec) *)
+  v_cusp : Z;       (* AuctionParams.Cusp (Dec) *)
+  v_dur : Z;        (* AuctionDurationSeconds *)
+  v_dust : Z;       (* ExtendedPairVault / lend pair MinUsdValueLeft (uint64) *)
+  v_dout : Z;       (* Decimals of the outflow (collateral) asset *)
+  v_din : Z;        (* Decimals of the inflow (debt) asset *)
+  v_lend : bool;    (* lend auction (dutch_lend.go) *)
+  v_bonus : Z       (* lend: AssetRatesParams.LiquidationBonus of the collateral asset (Dec) *)
+}.
+
+Record v1auc := mkV1A {
+  o_cur : Z;        (* OutflowTokenCurrentAmount *)
+  i_target : Z;     (* InflowTokenTargetAmount *)
+  i_cur : Z;        (* InflowTokenCurrentAmount *)
+  p_out : Z;        (* OutflowTokenCurrentPrice (Dec) *)
+  p_in : Z;         (* InflowTokenCurrentPrice (Dec) *)
+  p_top : Z;        (* OutflowTokenInitialPrice *)
+  p_end : Z;        (* OutflowTokenEndPrice *)
+  t_start : Z;
+  t_end : Z
+}.
+
+(* the lend module's reserve account (lend auctions: covers the shortfall when the collateral is sold out) *)
+Definition LEND_D : Z := 7.
+
+Record v1state := mkV1S {
+  v_led : ledger;
+  v_netfee : option Z    (* collector NetFeesCollected(app, debt asset); None = no record *)
+}.
+
+Record v1res := mkV1R {
+  w_paid : Z;       (* inflow (debt) taken from the bidder *)
+  w_recv : Z;       (* outflow (collateral) sent to the bidder, bonus included *)
+  w_slice : Z;      (* the part of w_recv taken off the auction's collateral *)
+  w_closed : bool;
+  w_reached : bool; (* TargetReachedFlag *)
+  w_topup : Z       (* sold-out close: taken from the collector (vault) / the lend reserve (lend) *)
+}.
+
+(* StartDutchAuction: target = AmountOut + trunc(NewDec(AmountOut.Int64()) * penalty) + InterestAccumulated *)
+Definition v1_target (amount_out penalty fees : Z) : option Z :=
+  match int64_c amount_out with
+  | Some ao => match dmul_c (dec_of_int ao) penalty with
+               | Some m => Some (amount_out + dtrunc_int m + fees)
+               | None => None
+               end
+  | None => None
+  end.
+
+(* [pin]: the inflow price the code reads (oracle twa when active, or the fixed AssetOutPrice), None when it
+   returns ErrorPrices; [pout]: Some twa of the collateral when active *)
+Definition v1_activate (cf : v1cfg) (coll amount_out penalty fees now : Z) (pin pout : option Z) : outcome v1auc :=
+  match pin with
+  | None => Err 1
+  | Some ti =>
+    match pout with
+    | None => Err 1
+    | Some tc =>
+      match v1_target amount_out penalty fees with
+      | None => Panic
+      | Some target =>
+        match v1_initial_price (v_buffer cf) tc with
+        | None => Panic
+        | Some top =>
+          match dmul_c top (v_cusp cf) with
+          | None => Panic
+          | Some e => Ok (mkV1A coll target 0 top (dec_of_int ti) top e now (now + v_dur cf))
+          end
+        end
+      end
+    end
+  end.
+
+(* one auction in RestartDutchAuctions / RestartDutchLendAuctions (under ApplyFuncIfNoError) *)
+Definition v1_tick_raw (cf : v1cfg) (now : Z) (pin pout : option Z) (a : v1auc) : outcome v1auc :=
+  match pin with
+  | None => Err 1
+  | Some ti =>
+    match v1_posted_price (p_top a) (p_end a) (v_dur cf) (now - t_start a) with
+    | None => Panic
+    | Some p =>
+      let a1 := mkV1A (o_cur a) (i_target a) (i_cur a) p (dec_of_int (wrap64 ti)) (p_top a) (p_end a) (t_start a) (t_end a) in
+      if now >? t_end a then
+        match pout with
+        | None => Err 1
+        | Some tc =>
+          match v1_initial_price (v_buffer cf) tc with
+          | None => Panic
+          | Some top =>
+            match dmul_c top (v_cusp cf) with
+            | None => Panic
+            | Some e => Ok (mkV1A (o_cur a) (i_target a) (i_cur a) top (dec_of_int (wrap64 ti)) top e now (now + v_dur cf))
+            end
+          end
+        end
+      else Ok a1
+    end
+  end.
+
+Definition v1_tick (cf : v1cfg) (now : Z) (pin pout : option Z) (a : v1auc) : v1auc :=
+  match v1_tick_raw cf now pin pout a with Ok a' => a' | _ => a end.
+
+(* CloseDutchAuction (vault): burn the principal, the rest of the target to the collector and into its fee book *)
+Definition v1_close_vault (amount_out target : Z) (L : ledger) (nf : option Z) : outcome (ledger * option Z) :=
+  let pen := target - amount_out in
+  do L1 <- (if amount_out >? 0 then oerr 20 (send L AUC_D BRN_D amount_out) else Ok L);
+  do L2 <- (if pen >? 0 then oerr 21 (send L1 AUC_D COL_D pen) else Ok L1);
+  if pen <? 0 then Err 22 else
+  Ok (L2, Some (match nf with Some x => x + pen | None => pen end)).
+
+(* PlaceDutchAuctionBid / PlaceLendDutchAuctionBid.  [bid] is an amount of COLLATERAL the bidder wants. *)
+Definition v1_place_bid (cf : v1cfg) (amount_out : Z) (a : v1auc) (s : v1state) (who bid : Z) (wrong_denom : bool)
+  : outcome (v1state * option v1auc * v1res) :=
+  if bid =? 0 then Err 1 else
+  if wrong_denom then Err 2 else
+  if bid >? o_cur a then Err 3 else
+  let tab := i_target a - i_cur a in
+  do (owe0, infl0) <- opanic (conv2_c (v_dout cf) (p_out a) bid (v_din cf) (p_in a));
+  if infl0 <=? 0 then Err 4 else
+  let reached := infl0 >? tab in
+  do (owe, infl, slice) <-
+     (if reached then do (o, sl) <- opanic (conv2_c (v_din cf) (p_in a) tab (v_dout cf) (p_out a)); Ok (o, tab, sl)
+      else Ok (owe0, infl0, bid));
+  if infl <? 0 then Panic else                                   (* NewCoin *)
+  (* the lend variant values the collateral left with the DEBT asset's Decimals *)
+  do outLeft <- opanic (usd_value_c (if v_lend cf then v_din cf else v_dout cf) (p_out a) (o_cur a));
+  do outLeftDebt <- opanic (usd_value_c (v_din cf) (p_in a) tab);
+  do lft <- opanic (dsub_c outLeft owe);
+  do lftD <- opanic (dsub_c outLeftDebt owe);
+  do dust <- opanic (uint64_c (v_dust cf));
+  if (lft <? dec_of_int dust) && negb (lft =? 0) && negb reached then Err 5 else
+  if (lftD <? dec_of_int dust) && negb (lftD =? 0) && negb (lft =? 0) then Err 6 else
+  if slice <? 0 then Panic else                                  (* NewCoin *)
+  if v_lend cf then
+    (* ---- lend: inflow straight on to the pool, bonus on top of the slice *)
+    do L1 <- oerr 7 (send (v_led s) (BID_D who) AUC_D infl);
+    do L2 <- oerr 8 (send L1 AUC_D POOL_D infl);
+    do sl64 <- opanic (int64_c slice);
+    do bon <- opanic (dmul_c (dec_of_int sl64) (v_bonus cf));
+    let tot := slice + dtrunc_int bon in
+    if tot <? 0 then Panic else
+    if o_cur a - slice <? 0 then Panic else
+    let oc := o_cur a - slice in let ic := i_cur a + infl in
+    let a' := mkV1A oc (i_target a) ic (p_out a) (p_in a) (p_top a) (p_end a) (t_start a) (t_end a) in
+    if ic >=? i_target a then
+      do L3 <- (if oc >? 0 then oerr 9 (send L2 AUC_C OWN_C oc) else Ok L2);
+      do L4 <- oerr 10 (send L3 AUC_C (BID_C who) tot);
+      Ok (mkV1S L4 (v_netfee s), None, mkV1R infl tot slice true reached 0)
+    else if oc =? 0 then
+      let req := i_target a - ic in
+      if v_led s LEND_D <? req then Err 11 else                  (* reserve pool balance *)
+      do L3 <- oerr 12 (send L2 LEND_D POOL_D req);
+      do L4 <- oerr 10 (send L3 AUC_C (BID_C who) tot);
+      Ok (mkV1S L4 (v_netfee s), None, mkV1R infl tot slice true reached req)
+    else
+      do L3 <- oerr 10 (send L2 AUC_C (BID_C who) tot);
+      Ok (mkV1S L3 (v_netfee s), Some a', mkV1R infl tot slice false reached 0)
+  else
+    (* ---- vault *)
+    do L1 <- (if infl >? 0 then oerr 7 (send (v_led s) (BID_D who) AUC_D infl) else Ok (v_led s));
+    do L2 <- (if slice >? 0 then oerr 8 (send L1 AUC_C (BID_C who) slice) else Ok L1);
+    if o_cur a - slice <? 0 then Panic else                      (* Coin.Sub *)
+    let oc := o_cur a - slice in let ic := i_cur a + infl in
+    let a' := mkV1A oc (i_target a) ic (p_out a) (p_in a) (p_top a) (p_end a) (t_start a) (t_end a) in
+    if ic >=? i_target a then
+      do L3 <- (if oc >? 0 then oerr 9 (send L2 AUC_C OWN_C oc) else Ok L2);
+      do (L4, nf) <- v1_close_vault amount_out (i_target a) L3 (v_netfee s);
+      Ok (mkV1S L4 nf, None, mkV1R infl slice slice true reached 0)
+    else if oc =? 0 then
+      (* collateral sold out, debt left: the collector pays the rest *)
+      let req := i_target a - ic in
+      match v_netfee s with
+      | None => Err 13
+      | Some nf0 =>
+          if req <? 0 then Err 14 else
+          if negb (nf0 - req >? 0) then Err 15 else
+          do L3 <- oerr 16 (send L2 COL_D AUC_D req);
+          do (L4, nf) <- v1_close_vault amount_out (i_target a) L3 (Some (nf0 - req));
+          Ok (mkV1S L4 nf, None, mkV1R infl slice slice true reached req)
+      end
+    else Ok (mkV1S L2 (v_netfee s), Some a', mkV1R infl slice slice false reached 0).
+
+(* ---- one auction's life *)
+Inductive v1op :=
+| V1Bid (who amt : Z) (wrong_denom : bool)
+| V1Tick (now : Z) (pin pout : option Z).
+
+Record v1life := mkV1L {
+  g_s : v1state;
+  g_a : option v1auc;
+  g_paid : Z;      (* ghost: sum of inflow paid by bidders *)
+  g_recv : Z;      (* ghost: sum of collateral taken off the auction (slices) *)
+  g_bonus : Z;     (* ghost: sum of bonus collateral paid on top (lend) *)
+  g_top : Z        (* ghost: shortfall covered by collector / reserve at the close *)
+}.
+
+Definition v1_step (cf : v1cfg) (amount_out : Z) (f : v1life) (o : v1op) : v1life :=
+  match g_a f with
+  | None => f
+  | Some a =>
+      match o with
+      | V1Tick now pin pout => mkV1L (g_s f) (Some (v1_tick cf now pin pout a)) (g_paid f) (g_recv f) (g_bonus f) (g_top f)
+      | V1Bid who amt wd =>
+          match v1_place_bid cf amount_out a (g_s f) who amt wd with
+          | Ok (s', a', r) => mkV1L s' a' (g_paid f + w_paid r) (g_recv f + w_slice r)
+                                    (g_bonus f + (w_recv r - w_slice r)) (g_top f + w_topup r)
+          | _ => f
+          end
+      end
+  end.
+
+Definition v1_run (cf : v1cfg) (amount_out : Z) (f : v1life) (ops : list v1op) : v1life :=
+  fold_left (v1_step cf amount_out) ops f.
+
+(* ---- predicates on observations (runner) *)
+(* one successful bid at posted prices po (collateral) / pi (debt): the bidder pays at least the posted value
+   of what is taken off the auction (minus three debt units of rounding; when the bid fills the target: at most
+   one collateral unit more than the payment buys), receives at most the slice plus the advertised bonus
+   share, and the amounts stay within the auction's remaining collateral / debt *)
+Definition holds_C10_v1_bid (dout din po pi bonus o_before tab paid recv slice : Z) : bool :=
+  (0 <=? paid) && (0 <=? slice) && (slice <=? recv) && (slice <=? o_before) && (paid <=? tab) &&
+  ((slice * (po * din) <? (paid + 3) * (pi * dout)) ||
+   ((paid =? tab) && ((slice - 1) * (po * din) <=? paid * (pi * dout)))) &&
+  ((recv - slice) * P18 <=? slice * bonus).
+
+(* totals over the life of one auction: paid <= target, collateral taken off the auction <= seized,
+   bonus paid on top <= the advertised share of it *)
+Definition holds_C10_v1_totals (target coll bonus paid slices bonus_paid : Z) : bool :=
+  (paid <=? target) && (slices <=? coll) && (bonus_paid * P18 <=? slices * bonus).
+
+(* custody: what the auction account holds beyond the live auctions' collateral (and, vault auctions, the debt
+   they have collected so far) *)
+Definition holds_C10_v1_custody (residual_c residual_d : Z) : bool := (residual_c =? 0) && (residual_d =? 0).
+
+(* known-finding class C10-F4 (generation-1 LEND auctions): the liquidation module transfers the lot plus the
+   whole advertised bonus into the auction account; the bonus is paid per bid as trunc(slice x bonus), and the
+   bonus share of collateral that is NOT sold (target reached early: the rest goes back to the borrower
+   without it) and the truncation remainders are never paid out or returned.  [funded] = collateral moved into
+   the auction account for the auction(s), [coll] = their OutflowTokenInitAmount, [bonus_paid] = bonus paid *)
+Definition kf_C10_4 (lend : bool) (funded coll bonus_paid : Z) : bool := lend && (coll + bonus_paid <? funded).
